@@ -67,5 +67,8 @@ class Deps:
 
 
 def run_prog(exe, args=(), timeout=300, stdin=None):
-    p = subprocess.run([exe] + list(args), stdout=subprocess.PIPE, stderr=subprocess.PIPE, text=True, timeout=timeout, input=stdin)
+    try:
+        p = subprocess.run([exe] + list(args), stdout=subprocess.PIPE, stderr=subprocess.PIPE, text=True, timeout=timeout, input=stdin)
+    except subprocess.TimeoutExpired:
+        raise vlib.ToolError("generated program %s did not finish within %ds (generator problem, not a verdict)" % (exe, timeout))
     return p
